@@ -79,3 +79,29 @@ int vh_unhex(const char *s, uint8_t *out, size_t max)
 	for (size_t i = 0; i < n; i++) { unsigned v; if (sscanf(s + 2 * i, "%2x", &v) != 1) return -1; out[i] = (uint8_t)v; }
 	return (int)n;
 }
+
+// ---------------- key=value lines ----------------
+void kv_parse(KV *kv, char *line)
+{
+	kv->n = 0; char *sp = NULL;
+	for (char *t = strtok_r(line, " \t\r\n", &sp); t && kv->n < 64; t = strtok_r(NULL, " \t\r\n", &sp)) {
+		char *v = strchr(t, '='); if (!v) continue; *v++ = 0;
+		kv->k[kv->n] = t; kv->v[kv->n] = v; kv->n++;
+	}
+}
+const char *kv_str(const KV *kv, const char *k, const char *d) { for (int i = 0; i < kv->n; i++) if (!strcmp(kv->k[i], k)) return kv->v[i]; return d; }
+long kv_int(const KV *kv, const char *k, long d) { const char *s = kv_str(kv, k, NULL); return s ? atol(s) : d; }
+int kv_has(const KV *kv, const char *k) { return kv_str(kv, k, NULL) != NULL; }
+uint8_t *kv_hex(const KV *kv, const char *k, size_t *len)
+{
+	const char *s = kv_str(kv, k, "-"); if (!strcmp(s, "-")) s = "";
+	size_t n = strlen(s) / 2; uint8_t *b = vh_exact(n);
+	for (size_t i = 0; i < n; i++) { unsigned v = 0; sscanf(s + 2 * i, "%2x", &v); b[i] = (uint8_t)v; }
+	*len = n; return b;
+}
+int kv_ints(const KV *kv, const char *k, long *out, int max)
+{
+	const char *s = kv_str(kv, k, ""); int n = 0;
+	while (*s && n < max) { out[n++] = strtol(s, (char **)&s, 10); if (*s == ',') s++; }
+	return n;
+}
